@@ -542,6 +542,15 @@ func (w *World) runTx(rec *StepRec, msgs []Action) {
 	cctx, write := w.ctx.CacheContext()
 	var evs []abci.Event
 	multi := len(msgs) > 1
+	// a message may target the context an earlier message of this very transaction creates
+	for i := range msgs {
+		if r := msgs[i].TxRef; r != nil && *r >= 0 && *r < i {
+			msgs[i].CtxID = hx(types.GenerateRequestContextID(append([]byte{}, hash...), int64(*r)))
+			if msgs[i].IsMsg() {
+				built[i] = msgs[i].Msg()
+			}
+		}
+	}
 	for i, m := range msgs {
 		mctx := cctx.WithValue(types.TxHash, hash).WithValue(types.MsgIndex, int64(i))
 		var err error
